@@ -265,7 +265,7 @@ func (s *Server) exec(c Cmd) RedisResult {
 			ok = false
 		}
 		if s.cfg.Log != nil {
-			s.cfg.Log("redis_get", fmt.Sprintf("key=%x hit=%v", c.key, ok))
+			s.cfg.Log("redis_get", fmt.Sprintf("key=%x hit=%v hdr=%x", c.key, ok, e.val[:min(16, len(e.val))]))
 		}
 		if !ok {
 			return RedisResult{err: Nil}
@@ -293,7 +293,7 @@ func (s *Server) exec(c Cmd) RedisResult {
 		s.data[c.key] = ne
 		s.Sets++
 		if s.cfg.Log != nil {
-			s.cfg.Log("redis_set", fmt.Sprintf("key=%x nx=%v px=%d stored=true", c.key, c.nx, c.px))
+			s.cfg.Log("redis_set", fmt.Sprintf("key=%x nx=%v px=%d stored=true hdr=%x", c.key, c.nx, c.px, c.val[:min(16, len(c.val))]))
 		}
 		return RedisResult{val: []byte("OK")}
 	}
